@@ -169,6 +169,7 @@ class WebSession(object):
 
                 request = self._original_request.copy()
                 request.url = url
+                self._strip_copied_fields(request)
             else:
                 request = self._request_factory(url)
 
@@ -179,6 +180,29 @@ class WebSession(object):
         self._next_request = request
 
         _logger.debug('Updated next redirect request to {0}.'.format(request))
+
+    def _strip_copied_fields(self, request: Request):
+        '''Remove fields of a repeated request that belong to the old URL.
+
+        ``Host`` and ``Cookie`` are derived from the URL of each request.
+        ``Authorization`` must not follow the request to another host and
+        ``Referer`` must not go from HTTPS to HTTP.
+        '''
+        old_url_info = self._original_request.url_info
+        new_url_info = request.url_info
+
+        for name in ('Host', 'Cookie'):
+            request.fields.pop(name, None)
+
+        if (old_url_info.scheme, old_url_info.hostname_with_port) != \
+                (new_url_info.scheme, new_url_info.hostname_with_port):
+            request.fields.pop('Authorization', None)
+
+        referer = request.fields.get('Referer')
+
+        if referer and referer.lower().startswith('https://') \
+                and new_url_info.scheme == 'http':
+            request.fields.pop('Referer', None)
 
     def _get_cookie_referrer_host(self):
         '''Return the referrer hostname.'''
